@@ -16,20 +16,102 @@ open PrologVerif PrologVerif.VM PrologVerif.DecompileCompile PrologVerif.Activat
 /-! ## continuations as goal lists -/
 
 /-- the pending goals of a continuation: each with the cut parent of the activation it belongs to -/
-inductive ContGoals (tmpl : Term) (max : Nat) : Cont → List (Term × Nat) → Prop
-  | collect : ContGoals tmpl max (.collect tmpl max) []
+inductive ContGoals (s : Bool) (mo : Option Nat) (tmpl : Term) (max : Nat) : Cont → List (Term × Nat) → Prop
+  | collect : mo = none → ContGoals s mo tmpl max (.collect tmpl max) []
+  | done : mo.isSome = true → ContGoals s mo tmpl max .done []
   | exec {tbl vars : List Nat} {ρ : Nat → Nat} {ops : List Op} {gs : List Rep} {cp : Nat} {k : Cont}
       {G : List (Term × Nat)} :
       BodySem tbl ops gs → Renames tbl vars ρ →
-      (∀ g ∈ gs, g = .atom "!" ∨ hornGoal (goalTerm g) = true) →
-      ContGoals tmpl max k G →
-      ContGoals tmpl max (.exec (ops ++ [.exit]) vars cp k)
+      (∀ g ∈ gs, g = .atom "!" ∨ stepGoal s (goalTerm g) = true) →
+      ContGoals s mo tmpl max k G →
+      ContGoals s mo tmpl max (.exec (ops ++ [.exit]) vars cp k)
         (gs.map (fun g => ((goalTerm g).rename ρ, cp)) ++ G)
 
 theorem hornGoal_rename (ρ : Nat → Nat) (t : Term) : hornGoal (t.rename ρ) = hornGoal t := by
   cases t with
   | app f as => simp [Term.rename, Term.subst, hornGoal, Args.length_subst]
   | _ => rfl
+
+theorem rename_eq_app {t : Term} {ρ : Nat → Nat} {f : String} {as : Args} (h : t.rename ρ = .app f as) :
+    ∃ as', t = .app f as' ∧ as'.subst (fun v => .var (ρ v)) = as := by
+  cases t with
+  | app f' as' =>
+    simp only [Term.rename, Term.subst, Term.app.injEq] at h
+    exact ⟨as', by rw [h.1], h.2⟩
+  | _ => simp [Term.rename, Term.subst] at h
+
+theorem subst_eq_cons {as : Args} {σ : Subst} {a : Term} {bs : Args} (h : as.subst σ = .cons a bs) :
+    ∃ a' bs', as = .cons a' bs' ∧ a'.subst σ = a ∧ bs'.subst σ = bs := by
+  cases as with
+  | nil => simp [Args.subst] at h
+  | cons a' bs' =>
+    simp only [Args.subst, Args.cons.injEq] at h
+    exact ⟨a', bs', rfl, h.1, h.2⟩
+
+theorem subst_eq_nil {as : Args} {σ : Subst} (h : as.subst σ = .nil) : as = .nil := by
+  cases as with
+  | nil => rfl
+  | cons _ _ => simp [Args.subst] at h
+
+theorem ctlGoal_iff {t : Term} : ctlGoal t = true ↔ Ctl t := by
+  constructor
+  · exact ctlGoal_shape
+  · intro h
+    cases h with
+    | call x hx => subst hx; rfl
+    | ite c t e hx => subst hx; rfl
+    | ifthen c t hx => subst hx; simp [ctlGoal]
+    | once x hx => subst hx; rfl
+    | neg x hx => subst hx; rfl
+
+theorem ctl_rename {t : Term} (ρ : Nat → Nat) (h : Ctl t) : Ctl (t.rename ρ) := by
+  cases h with
+  | call x hx => subst hx; exact .call (x.rename ρ) rfl
+  | ite c t e hx => subst hx; exact .ite (c.rename ρ) (t.rename ρ) (e.rename ρ) rfl
+  | ifthen c t hx => subst hx; exact .ifthen (c.rename ρ) (t.rename ρ) rfl
+  | once x hx => subst hx; exact .once (x.rename ρ) rfl
+  | neg x hx => subst hx; exact .neg (x.rename ρ) rfl
+
+theorem ctl_of_rename {t : Term} (ρ : Nat → Nat) (h : Ctl (t.rename ρ)) : Ctl t := by
+  cases h with
+  | call x hx =>
+    obtain ⟨as', rfl, has⟩ := rename_eq_app hx
+    obtain ⟨a', bs', rfl, _, hb⟩ := subst_eq_cons has
+    rw [subst_eq_nil hb]
+    exact .call _ rfl
+  | ite c t e hx =>
+    obtain ⟨as', rfl, has⟩ := rename_eq_app hx
+    obtain ⟨a', bs', rfl, ha, hb⟩ := subst_eq_cons has
+    obtain ⟨e', bs'', rfl, _, hb'⟩ := subst_eq_cons hb
+    rw [subst_eq_nil hb']
+    obtain ⟨as2, rfl, has2⟩ := rename_eq_app (t := a') (ρ := ρ) ha
+    obtain ⟨c', cs, rfl, _, hc⟩ := subst_eq_cons has2
+    obtain ⟨t', ts, rfl, _, ht⟩ := subst_eq_cons hc
+    rw [subst_eq_nil ht]
+    exact .ite _ _ _ rfl
+  | ifthen c t hx =>
+    obtain ⟨as', rfl, has⟩ := rename_eq_app hx
+    obtain ⟨a', bs', rfl, _, hb⟩ := subst_eq_cons has
+    obtain ⟨e', bs'', rfl, _, hb'⟩ := subst_eq_cons hb
+    rw [subst_eq_nil hb']
+    exact .ifthen _ _ rfl
+  | once x hx =>
+    obtain ⟨as', rfl, has⟩ := rename_eq_app hx
+    obtain ⟨a', bs', rfl, _, hb⟩ := subst_eq_cons has
+    rw [subst_eq_nil hb]
+    exact .once _ rfl
+  | neg x hx =>
+    obtain ⟨as', rfl, has⟩ := rename_eq_app hx
+    obtain ⟨a', bs', rfl, _, hb⟩ := subst_eq_cons has
+    rw [subst_eq_nil hb]
+    exact .neg _ rfl
+
+theorem ctlGoal_rename (ρ : Nat → Nat) (t : Term) : ctlGoal (t.rename ρ) = ctlGoal t := by
+  rw [Bool.eq_iff_iff, ctlGoal_iff, ctlGoal_iff]
+  exact ⟨ctl_of_rename ρ, ctl_rename ρ⟩
+
+theorem stepGoal_rename (s : Bool) (ρ : Nat → Nat) (t : Term) : stepGoal s (t.rename ρ) = stepGoal s t := by
+  simp [stepGoal, hornGoal_rename, ctlGoal_rename]
 
 /-- the state after the query's hand-off recorded an answer -/
 def recordAnswer (tmpl : Term) (env : Env) (m : MS) : MS :=
@@ -40,22 +122,29 @@ def cutPromise (pc : List Op) (vars : List Nat) (k : Cont) (env : Env) (cp : Nat
   { delayed := [.afterCut pc vars k [] [] env cp], cutParent := some cp }
 
 /-- **one step of a continuation**: record an answer, arrive at the first goal, or cut -/
-theorem cont_step {tmpl : Term} {max : Nat} {K : Cont} {G : List (Term × Nat)} (h : ContGoals tmpl max K G) :
+theorem cont_step {s : Bool} {tmpl : Term} {max : Nat} {K : Cont} {G : List (Term × Nat)} (h : ContGoals s mo tmpl max K G) :
     ∀ (fuel : Nat) (env : Env) (m : MS) (res : Pr × MS), applyCont fuel K env m = some res →
-    (G = [] ∧ res = (if (recordAnswer tmpl env m).user.answers.length ≥ max then okP else failP,
-        recordAnswer tmpl env m)) ∨
-    (∃ g cp G' K' fuel', G = (g, cp) :: G' ∧ ContGoals tmpl max K' G' ∧ fuel' < fuel ∧ hornGoal g = true ∧
+    (G = [] ∧ ((mo = none ∧ res = (if (recordAnswer tmpl env m).user.answers.length ≥ max then okP else failP,
+        recordAnswer tmpl env m)) ∨ (mo.isSome = true ∧ res = (okP, m)))) ∨
+    (∃ g cp G' K' fuel', G = (g, cp) :: G' ∧ ContGoals s mo tmpl max K' G' ∧ fuel' < fuel ∧ stepGoal s g = true ∧
       arrive fuel' (functorName g) (argList g) K' env m = some res) ∨
-    (∃ cp G' pc vars k, G = (.atom "!", cp) :: G' ∧ ContGoals tmpl max (.exec pc vars cp k) G' ∧
+    (∃ cp G' pc vars k, G = (.atom "!", cp) :: G' ∧ ContGoals s mo tmpl max (.exec pc vars cp k) G' ∧
       res = (cutPromise pc vars k env cp, m)) := by
   induction h with
-  | collect =>
+  | collect hmo =>
     intro fuel env m res hrun
     cases fuel with
     | zero => simp [applyCont] at hrun
     | succ n =>
       rw [applyCont] at hrun
-      exact Or.inl ⟨rfl, (Option.some.inj hrun).symm⟩
+      exact Or.inl ⟨rfl, Or.inl ⟨hmo, (Option.some.inj hrun).symm⟩⟩
+  | done hmo =>
+    intro fuel env m res hrun
+    cases fuel with
+    | zero => simp [applyCont] at hrun
+    | succ n =>
+      rw [applyCont] at hrun
+      exact Or.inl ⟨rfl, Or.inr ⟨hmo, (Option.some.inj hrun).symm⟩⟩
   | @exec tbl vars ρ ops gs cp k G hsem hren hgs hk ih =>
     intro fuel env m res hrun
     cases fuel with
@@ -77,7 +166,7 @@ theorem cont_step {tmpl : Term} {max : Nat} {K : Cont} {G : List (Term × Nat)} 
           · exact Or.inr (Or.inr ⟨cp', G', pc, vars', k', by simpa using h1, h2, h3⟩)
       | cons g gs' =>
         obtain ⟨seg, ops', rfl, _, hb', hcutc, hcall⟩ := first_goal hsem
-        have hk' : ContGoals tmpl max (.exec (ops' ++ [.exit]) vars cp k)
+        have hk' : ContGoals s mo tmpl max (.exec (ops' ++ [.exit]) vars cp k)
             (gs'.map (fun g => ((goalTerm g).rename ρ, cp)) ++ G) :=
           .exec hb' hren (fun g' hg' => hgs g' (by simp [hg'])) hk
         by_cases hc : g = .atom "!"
@@ -85,14 +174,14 @@ theorem cont_step {tmpl : Term} {max : Nat} {K : Cont} {G : List (Term × Nat)} 
           have := hcutc rfl vars n [.exit] k env cp m res hrun
           refine Or.inr (Or.inr ⟨cp, _, ops' ++ [.exit], vars, k, by simp [goalTerm, Rep.abs, Term.rename, Term.subst], hk', ?_⟩)
           rw [this]; rfl
-        · have hh : hornGoal (goalTerm g) = true := by
+        · have hh : stepGoal s (goalTerm g) = true := by
             rcases hgs g (by simp) with h | h
             · exact absurd h hc
             · exact h
           obtain ⟨fuel', hf', harr⟩ := hcall hc vars ρ hren n [.exit] k env cp m res hrun
           refine Or.inr (Or.inl ⟨(goalTerm g).rename ρ, cp, _, .exec (ops' ++ [.exit]) vars cp k, fuel', by simp,
             hk', by omega, ?_, harr⟩)
-          rw [hornGoal_rename]; exact hh
+          rw [stepGoal_rename]; exact hh
 
 /-! ## the VM's builtin dispatch on the fragment -/
 
@@ -111,6 +200,11 @@ theorem builtin_eq (n : Nat) (x y : Term) (k : Cont) (env : Env) (m : MS) :
       | some (env', .ok) => some (applyCont n k env' m)
       | some _ => some (some (failP, m))
       | none => some none := by
+  rw [builtin]
+  rfl
+
+theorem builtin_call1 (n : Nat) (g : Term) (k : Cont) (env : Env) (m : MS) :
+    builtin (n + 1) "call" [g] k env m = some (some (callGoal g k env m)) := by
   rw [builtin]
   rfl
 
